@@ -244,13 +244,24 @@ func Content(r *Rand, class string, w, h, c, p, aux int) []int {
 		for len(fib) <= p {
 			fib = append(fib, fib[len(fib)-1]+fib[len(fib)-2])
 		}
+		// exact multiples of the Fibonacci counts (the code-tree depth depends on the
+		// exact ratios), the remainder goes to category 0
+		total := 0
+		for cat := 0; cat <= p; cat++ {
+			total += fib[p-cat]
+		}
+		cycles := n / total
+		if cycles < 1 {
+			cycles = 1
+		}
 		var cats []int
-		for len(cats) < n {
-			for cat := 0; cat <= p; cat++ {
-				for i := 0; i < fib[p-cat]; i++ {
-					cats = append(cats, cat)
-				}
+		for cat := 0; cat <= p; cat++ {
+			for i := 0; i < fib[p-cat]*cycles; i++ {
+				cats = append(cats, cat)
 			}
+		}
+		for len(cats) < n {
+			cats = append(cats, 0)
 		}
 		for i := len(cats) - 1; i > 0; i-- {
 			j := r.Intn(i + 1)
